@@ -121,8 +121,8 @@ PROPS = {
              "properties and of other folds' counts), nested folds below, counts tagged and used in siblings; oracles: (i) the reference evaluator R; "
              "(ii) metamorphic: Q vs Q+ which additionally outputs every fold's count and an inner value - projecting the new outputs away the rows must "
              "be identical. distinct_nontrivial = distinct skeletons with count filters and >= 1 row",
-             quick={"cases": 9600, "timeout": 300},
-             thorough={"cases": 80000, "timeout": 1800},
+             quick={"cases": 40000, "timeout": 400, "plainrel": 8000},
+             thorough={"cases": 300000, "timeout": 2400, "plainrel": 60000},
              floors={"evaluations": 5000, "distinct": 150, "counters": {"queries_with_count_filters": 4000, "with_nested_folds": 1000}},
              technique="reference-model + metamorphic runtime monitor"),
     "C23": P("exploration",
